@@ -1,8 +1,320 @@
-//! C16 — stub, to be written.
+//! C16: variable sets, literals, single valuations and threshold constructors are faithful.
+//!
+//! Names travel hex-encoded (`h<utf8 bytes in hex>`, lists joined by `,`, the empty list is `~`), because a
+//! name may contain spaces, commas or be empty.
 #[path = "../common.rs"]
 mod common;
+use biodivine_lib_bdd::*;
 use common::*;
 
-pub fn run(key: &str, _a: &[String], _out: &mut Out) { panic!("unknown key {}", key) }
-pub fn gen(_tier: Tier, _rng: &mut Rng64, _out: &mut Out) {}
+fn s(x: &str) -> String { x.to_string() }
+
+fn enc_name(n: &str) -> String {
+    let mut r = String::from("h");
+    for b in n.as_bytes() { r.push_str(&format!("{:02x}", b)); }
+    r
+}
+fn dec_name(h: &str) -> String {
+    let h = &h[1..];
+    let bytes: Vec<u8> = (0..h.len() / 2).map(|i| u8::from_str_radix(&h[2 * i..2 * i + 2], 16).unwrap()).collect();
+    String::from_utf8(bytes).unwrap()
+}
+fn enc_names(ns: &[String]) -> String {
+    if ns.is_empty() { s("~") } else { ns.iter().map(|n| enc_name(n)).collect::<Vec<_>>().join(",") }
+}
+fn dec_names(f: &str) -> Vec<String> {
+    if f == "~" { vec![] } else { f.split(',').map(dec_name).collect() }
+}
+fn dec_usizes(f: &str) -> Vec<usize> {
+    if f == "~" { vec![] } else { f.split(',').map(|x| x.parse().unwrap()).collect() }
+}
+
+/// everything observable about the name/variable maps of a set, probed with `probes`
+fn observe_set(vs: &BddVariableSet, probes: &[String]) -> Vec<String> {
+    let vars = vs.variables();
+    let names_of: Vec<String> = vars.iter().map(|v| vs.name_of(*v)).collect();
+    let by_name: Vec<String> = probes.iter().map(|p| fmt_optvar(vs.var_by_name(p).map(|v| v.to_index()))).collect();
+    vec![
+        vs.num_vars().to_string(),
+        fmt_usizes(&vars.iter().map(|v| v.to_index()).collect::<Vec<_>>()),
+        enc_names(&names_of),
+        enc_names(&vs.variable_names()),
+        if by_name.is_empty() { s("~") } else { by_name.join(",") },
+    ]
+}
+
+pub fn run(key: &str, a: &[String], out: &mut Out) {
+    match key {
+        "C16.new" => {
+            // names probes => ok num_vars variables name_of* variable_names var_by_name(probes)* | panic
+            let names = dec_names(&a[0]);
+            let probes = dec_names(&a[1]);
+            let refs: Vec<&str> = names.iter().map(|x| x.as_str()).collect();
+            let res = catch(|| { let vs = BddVariableSet::new(&refs); observe_set(&vs, &probes) });
+            match res {
+                Some(mut o) => { let mut v = vec![s("ok")]; v.append(&mut o); out.case(key, a, &v) }
+                None => out.case(key, a, &[s("panic")]),
+            }
+        }
+        "C16.builder" => {
+            // names probes => ok returned-variables num_vars … | panic  (one make_variable per name, then build)
+            let names = dec_names(&a[0]);
+            let probes = dec_names(&a[1]);
+            let res = catch(|| {
+                let mut b = BddVariableSetBuilder::new();
+                let mut ret = vec![];
+                for n in &names { ret.push(b.make_variable(n).to_index()); }
+                let vs = b.build();
+                let mut o = vec![fmt_usizes(&ret)];
+                o.append(&mut observe_set(&vs, &probes));
+                o
+            });
+            match res {
+                Some(mut o) => { let mut v = vec![s("ok")]; v.append(&mut o); out.case(key, a, &v) }
+                None => out.case(key, a, &[s("panic")]),
+            }
+        }
+        "C16.batch" => {
+            // same through make_variables (one call)
+            let names = dec_names(&a[0]);
+            let probes = dec_names(&a[1]);
+            let refs: Vec<&str> = names.iter().map(|x| x.as_str()).collect();
+            let res = catch(|| {
+                let mut b = BddVariableSetBuilder::new();
+                let ret: Vec<usize> = b.make_variables(&refs).iter().map(|v| v.to_index()).collect();
+                let vs = b.build();
+                let mut o = vec![fmt_usizes(&ret)];
+                o.append(&mut observe_set(&vs, &probes));
+                o
+            });
+            match res {
+                Some(mut o) => { let mut v = vec![s("ok")]; v.append(&mut o); out.case(key, a, &v) }
+                None => out.case(key, a, &[s("panic")]),
+            }
+        }
+        "C16.anon" => {
+            // k probes => ok … | panic
+            let k: u16 = a[0].parse().unwrap();
+            let probes = dec_names(&a[1]);
+            let res = catch(|| { let vs = BddVariableSet::new_anonymous(k); observe_set(&vs, &probes) });
+            match res {
+                Some(mut o) => { let mut v = vec![s("ok")]; v.append(&mut o); out.case(key, a, &v) }
+                None => out.case(key, a, &[s("panic")]),
+            }
+        }
+        "C16.limit" => {
+            // ctor count => ok num_vars var_by_name(last name) name_of(last variable) | panic; names are v0, v1, …
+            let count: usize = a[1].parse().unwrap();
+            let names: Vec<String> = (0..count).map(|i| format!("v{}", i)).collect();
+            let res = catch(|| {
+                let vs = match a[0].as_str() {
+                    "new" => { let refs: Vec<&str> = names.iter().map(|x| x.as_str()).collect(); BddVariableSet::new(&refs) }
+                    "builder" => { let mut b = BddVariableSetBuilder::new(); for n in &names { b.make_variable(n); } b.build() }
+                    "anon" => BddVariableSet::new_anonymous(count as u16),
+                    _ => panic!("bad ctor"),
+                };
+                let last = if a[0] == "anon" { format!("x_{}", count - 1) } else { format!("v{}", count - 1) };
+                let v = vs.var_by_name(&last);
+                vec![vs.num_vars().to_string(), fmt_optvar(v.map(|v| v.to_index())), enc_name(&vs.name_of(var(count - 1)))]
+            });
+            match res {
+                Some(mut o) => { let mut v = vec![s("ok")]; v.append(&mut o); out.case(key, a, &v) }
+                None => out.case(key, a, &[s("panic")]),
+            }
+        }
+        "C16.const" => {
+            let n: u16 = a[0].parse().unwrap();
+            let vs = BddVariableSet::new_anonymous(n);
+            out.case(key, a, &[fmt_res_bdd(&catch(|| vs.mk_true())), fmt_res_bdd(&catch(|| vs.mk_false()))]);
+        }
+        "C16.lit" => {
+            // n x => mk_var mk_not_var mk_literal(true) mk_literal(false) mk_var_by_name mk_not_var_by_name   (x < n)
+            let n: u16 = a[0].parse().unwrap();
+            let x: usize = a[1].parse().unwrap();
+            let vs = BddVariableSet::new_anonymous(n);
+            let name = format!("x_{}", x);
+            out.case(key, a, &[
+                fmt_res_bdd(&catch(|| vs.mk_var(var(x)))),
+                fmt_res_bdd(&catch(|| vs.mk_not_var(var(x)))),
+                fmt_res_bdd(&catch(|| vs.mk_literal(var(x), true))),
+                fmt_res_bdd(&catch(|| vs.mk_literal(var(x), false))),
+                fmt_res_bdd(&catch(|| vs.mk_var_by_name(&name))),
+                fmt_res_bdd(&catch(|| vs.mk_not_var_by_name(&name))),
+            ]);
+        }
+        "C16.litname" => {
+            // names name => mk_var_by_name mk_not_var_by_name  (unknown names panic)
+            let names = dec_names(&a[0]);
+            let name = dec_name(&a[1]);
+            let refs: Vec<&str> = names.iter().map(|x| x.as_str()).collect();
+            match catch(|| BddVariableSet::new(&refs)) {
+                Some(vs) => out.case(key, a, &[
+                    fmt_res_bdd(&catch(|| vs.mk_var_by_name(&name))),
+                    fmt_res_bdd(&catch(|| vs.mk_not_var_by_name(&name))),
+                ]),
+                None => out.case(key, a, &[s("panic"), s("panic")]),
+            }
+        }
+        "C16.val" => {
+            // bits => Bdd::from(valuation)
+            let v: Vec<bool> = if a[0] == "~" { vec![] } else { a[0].chars().map(|c| c == '1').collect() };
+            out.case(key, a, &[fmt_res_bdd(&catch(|| Bdd::from(BddValuation::new(v))))]);
+        }
+        "C16.exactly" | "C16.upto" => {
+            // n k vars => bdd | panic
+            let n: u16 = a[0].parse().unwrap();
+            let k: usize = a[1].parse().unwrap();
+            let vars: Vec<BddVariable> = dec_usizes(&a[2]).into_iter().map(var).collect();
+            let vs = BddVariableSet::new_anonymous(n);
+            let res = if key == "C16.exactly" { catch(|| vs.mk_sat_exactly_k(k, &vars)) } else { catch(|| vs.mk_sat_up_to_k(k, &vars)) };
+            out.case(key, a, &[fmt_res_bdd(&res)]);
+        }
+        _ => panic!("unknown key {}", key),
+    }
+}
+
+/// all lists over `alphabet` with length <= `max_len`
+fn all_lists(alphabet: &[&str], max_len: usize) -> Vec<Vec<String>> {
+    let mut res: Vec<Vec<String>> = vec![vec![]];
+    let mut layer: Vec<Vec<String>> = vec![vec![]];
+    for _ in 0..max_len {
+        let mut next = vec![];
+        for l in &layer { for c in alphabet { let mut m = l.clone(); m.push(c.to_string()); next.push(m); } }
+        res.extend(next.iter().cloned());
+        layer = next;
+    }
+    res
+}
+
+fn subsets_as_lists(n: usize) -> Vec<Vec<usize>> {
+    (0..(1usize << n)).map(|m| (0..n).filter(|i| (m >> i) & 1 == 1).collect()).collect()
+}
+
+fn shuffle(rng: &mut Rng64, v: &mut Vec<usize>) {
+    for i in (1..v.len()).rev() { let j = rng.below(i as u64 + 1) as usize; v.swap(i, j); }
+}
+
+pub fn gen(tier: Tier, rng: &mut Rng64, out: &mut Out) {
+    let thorough = tier == Tier::Thorough;
+
+    // --- name lists: all lists of length <= 3 over a small alphabet with valid names, the empty name, every
+    //     forbidden character (alone / embedded), names that differ only by case or a space, non-ASCII
+    let alpha_q: Vec<&str> = vec!["a", "b", "ab", "", "A", "a b", "é", "a!", "&", "x|y", "(", "q?", "p:"];
+    let alpha_t: Vec<&str> = vec!["a", "b", "ab", "", "A", "a b", " a", "é", "x_0", "0", "a!", "!", "&", "x|y", "^", "=", "a<", ">", "(", ")", "q?", "p:", "\"", "\\", "a\nb"];
+    let alphabet = if thorough { alpha_t } else { alpha_q };
+    let probes_extra = [s("a"), s("zz"), s(""), s("x_0"), s("A")];
+    for names in all_lists(&alphabet, 3) {
+        let mut probes = names.clone();
+        probes.extend(probes_extra.iter().cloned());
+        let (f, p) = (enc_names(&names), enc_names(&probes));
+        run("C16.new", &[f.clone(), p.clone()], out);
+        run("C16.builder", &[f.clone(), p.clone()], out);
+        if thorough || rng.chance(1, 4) { run("C16.batch", &[f.clone(), p.clone()], out); }
+    }
+    // longer lists of valid names with a duplicate somewhere (or none)
+    for _ in 0..(if thorough { 3000 } else { 300 }) {
+        let len = 4 + rng.below(10) as usize;
+        let mut names: Vec<String> = (0..len).map(|i| format!("n{}", i)).collect();
+        match rng.below(4) {
+            0 => { let (i, j) = (rng.below(len as u64) as usize, rng.below(len as u64) as usize); names[i] = names[j].clone(); }
+            1 => { let i = rng.below(len as u64) as usize; names[i].push(*rng.pick(&['!', '&', '|', '^', '=', '<', '>', '(', ')', '?', ':'])); }
+            _ => {}
+        }
+        let mut probes = names.clone();
+        probes.push(s("n99"));
+        let (f, p) = (enc_names(&names), enc_names(&probes));
+        run("C16.new", &[f.clone(), p.clone()], out);
+        run("C16.builder", &[f.clone(), p.clone()], out);
+        run("C16.batch", &[f, p], out);
+    }
+    // anonymous sets
+    for k in 0..(if thorough { 40 } else { 12 }) {
+        let probes: Vec<String> = vec![s("x_0"), format!("x_{}", k), format!("x_{}", k.max(1) - 1), s("x"), s("x_"), s("x_00"), s("")];
+        run("C16.anon", &[k.to_string(), enc_names(&probes)], out);
+    }
+    // the limits: `new`/`new_anonymous` refuse 65534 names, the builder refuses the 65535th
+    for ctor in ["new", "builder", "anon"] {
+        for count in [65533usize, 65534, 65535] { run("C16.limit", &[s(ctor), count.to_string()], out); }
+        if thorough { run("C16.limit", &[s(ctor), s("1000")], out); }
+    }
+
+    // --- constants and literals
+    let nmax = if thorough { 9 } else { 6 };
+    for n in 0..=nmax {
+        run("C16.const", &[n.to_string()], out);
+        for x in 0..n { run("C16.lit", &[n.to_string(), x.to_string()], out); }
+    }
+    for names in all_lists(&["a", "b", "c d", ""], 3) {
+        for p in ["a", "b", "c d", "", "c", "x_0", "A"] { run("C16.litname", &[enc_names(&names), enc_name(p)], out); }
+    }
+    // a few large sets
+    for _ in 0..(if thorough { 200 } else { 30 }) {
+        let n = 10 + rng.below(3000) as usize;
+        let x = rng.below(n as u64) as usize;
+        run("C16.lit", &[n.to_string(), x.to_string()], out);
+    }
+
+    // --- single valuations: all valuations over <= 5 (thorough: 9) variables
+    for n in 0..=(if thorough { 9 } else { 5 }) {
+        for i in 0..(1usize << n) { run("C16.val", &[fmt_bools(&val_of_index(n, i))], out); }
+    }
+    for _ in 0..(if thorough { 500 } else { 50 }) {
+        let n = 10 + rng.below(40) as usize;
+        let v: Vec<bool> = (0..n).map(|_| rng.bool()).collect();
+        run("C16.val", &[fmt_bools(&v)], out);
+    }
+
+    // --- thresholds: all variable subsets (as sorted lists) x k = 0 … len + 2
+    let nsat = if thorough { 8 } else { 6 };
+    for n in 0..=nsat {
+        for vars in subsets_as_lists(n) {
+            for k in 0..=(vars.len() + 2) {
+                for key in ["C16.exactly", "C16.upto"] {
+                    run(key, &[n.to_string(), k.to_string(), fmt_usizes(&vars)], out);
+                }
+            }
+            // the same set in another order
+            if vars.len() >= 2 && (thorough || n <= 5) {
+                let mut sh = vars.clone();
+                shuffle(rng, &mut sh);
+                let mut rv = vars.clone();
+                rv.reverse();
+                for l in [sh, rv] {
+                    let k = rng.below(l.len() as u64 + 2) as usize;
+                    for key in ["C16.exactly", "C16.upto"] { run(key, &[n.to_string(), k.to_string(), fmt_usizes(&l)], out); }
+                }
+            }
+        }
+    }
+    // lists with duplicates, all lists of length <= 3 over <= 3 variables (any order), every k
+    for n in 1..=3usize {
+        let alphabet: Vec<String> = (0..n).map(|i| i.to_string()).collect();
+        let refs: Vec<&str> = alphabet.iter().map(|x| x.as_str()).collect();
+        for l in all_lists(&refs, if thorough { 4 } else { 3 }) {
+            let vars: Vec<usize> = l.iter().map(|x| x.parse().unwrap()).collect();
+            for k in 0..=(vars.len() + 1) {
+                for key in ["C16.exactly", "C16.upto"] { run(key, &[n.to_string(), k.to_string(), fmt_usizes(&vars)], out); }
+            }
+        }
+    }
+    // random lists (duplicates, any order) over more variables
+    for _ in 0..(if thorough { 4000 } else { 400 }) {
+        let n = 4 + rng.below(if thorough { 9 } else { 5 }) as usize;
+        let len = rng.below(n as u64 + 3) as usize;
+        let vars: Vec<usize> = (0..len).map(|_| rng.below(n as u64) as usize).collect();
+        let k = rng.below(len as u64 + 3) as usize;
+        for key in ["C16.exactly", "C16.upto"] { run(key, &[n.to_string(), k.to_string(), fmt_usizes(&vars)], out); }
+    }
+    // malformed stream: a listed variable that is not in the set trips the assertion of mk_conjunctive_clause
+    for n in 0..=3usize {
+        for extra in [n, n + 1, n + 7] {
+            for k in 0..=2usize {
+                let mut vars: Vec<usize> = (0..n).collect();
+                vars.insert(rng.below(n as u64 + 1) as usize, extra);
+                for key in ["C16.exactly", "C16.upto"] { run(key, &[n.to_string(), k.to_string(), fmt_usizes(&vars)], out); }
+            }
+        }
+    }
+}
+
 fn main() { harness_main(gen, run) }
